@@ -34,9 +34,9 @@ func Validate(namespaces []*Namespace) (*Environment, error) {
 		validateStreams,
 		buildSymbolTable,
 		resolveTypes,
-		validateMaps,
 		assignUnionCaseTags,
 		topologicalSortTypes,
+		validateMaps, // follows aliases of key types: only after reference cycles have been ruled out
 		convertGenericReferences,
 		validateUnionCases,
 		validateEnums,
